@@ -145,11 +145,9 @@ func evalC20(c c20Case, o *Obs) error {
 	if err != nil {
 		return err
 	}
+	// The goroutines hand the same, not yet hashed *bchutil.Tx to MatchTxAndUpdate of the shared filter (fresh
+	// wrappers per repetition, below).  The harness never touches those wrappers itself.
 	wrapped := make([]*bchutil.Tx, len(txs))
-	for i, b := range txs {
-		wrapped[i] = bchutil.NewTx(b.msg)
-		wrapped[i].Hash() // pre-compute: the harness itself must not race on the hash cache
-	}
 	hasReload, hasTx, hasAdd := false, false, false
 	writers, readers := 0, 0
 	inputs := make([][]c20Input, len(c.Progs))
@@ -198,11 +196,40 @@ func evalC20(c c20Case, o *Obs) error {
 	if os.Getenv("VERIF_REPLAY") != "" {
 		reps = 1000 // schedule-dependent: a replay re-executes the program many times under -race
 	}
+	// A second, unrelated filter is driven by one goroutine of its own while the program runs: whatever the shared
+	// filter's users do, this one must behave exactly like the sequential model (filters share nothing).
+	var byOps []c20Input
+	for j, it := range c.Items {
+		h := make([]byte, 32)
+		copy(h, it)
+		op := c20Op{Op: "addoutpoint", Item: j, Index: uint32(j)}
+		byOps = append(byOps, c20Input{op: op, data: outpointBytes(h, uint32(j))})
+		op.Op = "matchesoutpoint"
+		byOps = append(byOps, c20Input{op: op, data: outpointBytes(h, uint32(j))})
+		byOps = append(byOps, c20Input{op: c20Op{Op: "add", Item: j}, data: it}, c20Input{op: c20Op{Op: "matches", Item: j}, data: it})
+	}
+	for i := range txs {
+		byOps = append(byOps, c20Input{op: c20Op{Op: "matchtx", Item: i}, tx: txs[i]})
+	}
+	byLen, byK, byTweak := int(c.Len%97+8), c.K%7+1, c.Tweak+1
+	byWant := make([]bool, len(byOps))
+	byState := fromRef(newRefBloom(byLen, byK, byTweak, byte(wire.BloomUpdateAll)))
+	for i, in := range byOps {
+		byWant[i], _, byState = stepModel(byState, in, byTweak)
+	}
+	byWrapped := make([]*bchutil.Tx, len(txs))
+	for i, b := range txs {
+		byWrapped[i] = bchutil.NewTx(b.msg)
+		byWrapped[i].Hash()
+	}
 	overlaps := 0
 	for rep := 0; rep < reps; rep++ {
 		f := bloom.LoadFilter(wire.NewMsgFilterLoad(make([]byte, c.Len), c.K, c.Tweak, wire.BloomUpdateType(c.Flags)))
 		for i := 0; i < c.Preload && i < len(c.Items); i++ {
 			f.Add(c.Items[i])
+		}
+		for i, b := range txs {
+			wrapped[i] = bchutil.NewTx(b.msg)
 		}
 		// fresh reload messages per repetition (each goroutine owns its messages until it hands them over)
 		reloadMsgs := make([][]*wire.MsgFilterLoad, len(c.Progs))
@@ -262,9 +289,39 @@ func evalC20(c c20Case, o *Obs) error {
 				}
 			}()
 		}
+		f2 := bloom.LoadFilter(wire.NewMsgFilterLoad(make([]byte, byLen), byK, byTweak, wire.BloomUpdateAll))
+		byGot := make([]bool, len(byOps))
+		wg.Add(1)
+		go func() {
+			defer wg.Done()
+			<-start
+			for i, in := range byOps {
+				switch in.op.Op {
+				case "add":
+					f2.Add(in.data)
+				case "addoutpoint":
+					f2.AddOutPoint(wire.NewOutPoint(toHash(in.data[:32]), in.op.Index))
+				case "matches":
+					byGot[i] = f2.Matches(in.data)
+				case "matchesoutpoint":
+					byGot[i] = f2.MatchesOutPoint(wire.NewOutPoint(toHash(in.data[:32]), in.op.Index))
+				case "matchtx":
+					byGot[i] = f2.MatchTxAndUpdate(byWrapped[in.op.Item])
+				}
+			}
+		}()
 		close(start)
 		wg.Wait()
 		// ---- after the join ----
+		for i := range byOps {
+			if byGot[i] != byWant[i] {
+				return fmt.Errorf("a second filter used by one goroutine only, while the program ran on the first: step %d %s(%x) returned %v, the sequential model says %v (filters share state?); program %s",
+					i, byOps[i].op.Op, clip(byOps[i].data), byGot[i], byWant[i], progString(c))
+			}
+		}
+		if m2 := f2.MsgFilterLoad(); m2 == nil || string(m2.Filter) != byState.bits {
+			return fmt.Errorf("a second filter used by one goroutine only, while the program ran on the first, ends with a bit array that differs from its sequential model (filters share state?); program %s", progString(c))
+		}
 		// (6) the two views of "is a filter loaded" agree once everything is quiet
 		if loaded, msg := f.IsLoaded(), f.MsgFilterLoad(); loaded != (msg != nil) {
 			return fmt.Errorf("after the join IsLoaded() = %v but MsgFilterLoad() returns nil=%v; program %s", loaded, msg == nil, progString(c))
